@@ -28,7 +28,7 @@ ASSUMPTIONS = c18.ASSUMPTIONS + [
 
 
 def gen_cases(rng, tier):
-    return c18.gen_cases(rng, tier, n=(600 if tier == "quick" else 10000), pfault=0.35, kind="faults")
+    return c18.gen_cases(rng, tier, n=(600 if tier == "quick" else 5000), pfault=0.35, kind="faults")
 
 
 def compare(inp, impl_obs, model_obs):
